@@ -60,6 +60,7 @@ static int NPOOL = 8, NMASK = 3;
 static const int IDNCODES[] = { -100, -101, -102, -200, -201, -202, -203, -204, -205, -206, -207, -208, -209, -300, -301, -302, -303, -304, -305, -306, -307,
                                 -308, -309, -310, -311, -312, -313, -314, -1, -2, -999 };
 #define NCODES ((int)(sizeof IDNCODES / sizeof IDNCODES[0]))
+static int MAXDEPTH = 40, NOPOISON = 0;
 static int FAULTS = 0;          /* C19: fault-carrying transitions enabled */
 static int FAULT_BOUND = 2;
 static int CTXFAIL = 0;         /* C18: idnkit-only, create/initialize failures enabled */
@@ -224,6 +225,7 @@ static void apply(run_t *r, op_t o, const hist_t *h, int check) {
 }
 
 static void run_begin(run_t *r, int poison) {
+    if (NOPOISON) poison = -1;        /* leave the object memory uninitialised (for memcheck) */
     memset(r, 0, sizeof *r); model_init(&r->m); r->m.nfaults = 0;
     for (int li = 0; li < NLIB; li++) { LIB[li].ledger_reset(); LIB[li].ctx_reset(); r->obj[li] = LIB[li].new_(poison); LIB[li].init(r->obj[li]); }
 }
@@ -320,7 +322,7 @@ static void bfs(long shard, void *arg) {
         op_t ops[4096]; int nops = enabled(&r.m, ops);
         run_end(&r, &h, 0);
         MC_ADD(C_REPLAYS, 1);
-        if (h.n + 1 >= HMAX) continue;
+        if (h.n + 1 >= HMAX || h.n >= MAXDEPTH) continue;
         for (int k = 0; k < nops; k++) {
             hist_t h2 = h; h2.op[h2.n++] = ops[k];
             mc_current("bfs", "", h2.op, (size_t)h2.n * sizeof(op_t));
@@ -447,6 +449,8 @@ int main(int argc, char **argv) {
         if (!strcmp(argv[i], "--prop") && i + 1 < argc) PROP = argv[++i];
         else if (!strcmp(argv[i], "--lib") && i + 1 < argc && nl < 3) libs[nl++] = argv[++i];
         else if (!strcmp(argv[i], "--ctxfail")) CTXFAIL = 1;
+        else if (!strcmp(argv[i], "--maxdepth") && i + 1 < argc) MAXDEPTH = atoi(argv[++i]);
+        else if (!strcmp(argv[i], "--nopoison")) NOPOISON = 1;
     }
     for (int i = 0; i < nl; i++) load_lib(libs[i]);
     if (!NLIB) { fprintf(stderr, "no --lib\n"); return 2; }
@@ -455,6 +459,7 @@ int main(int argc, char **argv) {
     C_EMAILT = mc_counter("email_transitions_compared_with_fresh_object"); C_LIBCALLS = mc_counter("library_calls");
     C_FAULTRUNS = mc_counter("fault_runs"); mc_counter("bfs_depth_at_fixpoint"); mc_counter("distinct_email_outcomes"); mc_counter("frontier_left");
     if (mc_thorough) { NPOOL = 16; NMASK = 4; NPOISON = 4; }
+    if (NOPOISON) { NPOISON = 1; }
     if (!strcmp(PROP, "C19")) { FAULTS = 1; NPOOL = mc_thorough ? 8 : 4; NMASK = 2; NPOISON = 1; }
     if (!strcmp(PROP, "C18")) { NPOOL = mc_thorough ? 16 : 8; NMASK = mc_thorough ? 4 : 3; NPOISON = 1; }
     fresh_precompute();
